@@ -14,6 +14,7 @@ package galaxy
 // ---- the configuration of a network named in galaxy's json config is the static map itself; a
 // network loaded from the conf dir gets a map of its own; nothing of the static configuration changes
 //@ func [C12,C18] (*Galaxy).getNetworkConf
+//@   requires [C18] g.ServerRunOptions != nil
 //@   ensures [C12:configured-network-uses-static-conf] networkName in g.netConf ==> result1 == nil && result0 == g.netConf[networkName]
 //@   ensures [C12:conf-dir-network-gets-own-map] result1 == nil && !(networkName in g.netConf) ==> result0 == nil || fresh(result0)
 //@   modifies fresh mapsof(map[string]interface{}), fresh elemsof(interface{}), fresh elemsof(byte)
@@ -27,6 +28,7 @@ package galaxy
 //@ pure noNetworksAnnotation(pod *v1.Pod) bool = pod.Annotations == nil || pod.Annotations["k8s.v1.cni.cncf.io/networks"] == ""
 //@ func [C12,C18] (*Galaxy).resolveNetworks
 //@   requires req != nil && req.CmdArgs != nil && pod != nil
+//@   requires [C18] g.ServerRunOptions != nil
 //@   ensures [C12:resolved-networks-are-objects] result1 == nil ==> forall i int {result0[i]} :: 0 <= i && i < len(result0) ==> result0[i] != nil && result0[i].Args != nil
 //@   ensures [C12:first-network-on-kubelet-interface] result1 == nil && len(result0) > 0 ==> result0[0].IfName == req.CmdArgs.IfName
 //@   ensures [C12:default-networks-in-configured-order] result1 == nil && old(noNetworksAnnotation(pod)) && g.ENIIPNetwork == "" ==> len(result0) == len(g.DefaultNetworks) && forall i int {result0[i]} :: 0 <= i && i < len(result0) ==> result0[i].NetworkType == g.DefaultNetworks[i] && (g.DefaultNetworks[i] in g.netConf ==> result0[i].Conf == g.netConf[g.DefaultNetworks[i]])
@@ -43,4 +45,5 @@ package galaxy
 // lists the request's argument string, the plugin trace, the state file and fresh objects only
 //@ func [C12,C18] (*Galaxy).cmdAdd
 //@   requires req != nil && req.CmdArgs != nil && pod != nil
+//@   requires [C18] g.ServerRunOptions != nil
 //@   modifies skel.CmdArgs.Args, CniN, CniCmd, CniIf, SavedIDs, SavedLen, SavedIf, fresh cniutil.NetworkInfo.*, fresh elemsof(*cniutil.NetworkInfo), mapsof(map[string]string), fresh mapsof(map[string]interface{}), fresh mapsof(map[string]json.RawMessage), fresh elemsof(interface{}), fresh elemsof(byte), fresh elemsof(string), fresh k8s.NetworkSelectionElement.*, elemsof(*k8s.NetworkSelectionElement), fresh invoke.Args.*, fresh invoke.DefaultExec.*, fresh invoke.RawExec.*
